@@ -3,7 +3,10 @@
 package nathole
 
 import (
+	"context"
+	"net"
 	"slices"
+	"strconv"
 	"time"
 
 	"github.com/samber/lo"
@@ -65,8 +68,12 @@ func verif_getRangePorts(addrs []string, difference, maxNumber int) {
 //
 //verif:contract ~/pkg/nathole.ClassifyNATFeature
 //verif:props C20
-func verif_ClassifyNATFeature(addresses []string, localIPs []string) {
+func verif_ClassifyNATFeature(addresses []string, localIPs []string, k int) {
 	f, err := ClassifyNATFeature(addresses, localIPs)
+	if err == nil && k >= 0 && k < len(addresses) {
+		// every reported address - the first one included - has a usable port
+		verif.Ensures(verifPortInRange(addresses[k]), "accepted_addresses_have_ports_in_range")
+	}
 	if len(addresses) <= 1 {
 		verif.Ensures(err != nil, "needs_two_addresses")
 	}
@@ -80,8 +87,21 @@ func verif_ClassifyNATFeature(addresses []string, localIPs []string) {
 	}
 }
 
-//verif:loop ~/pkg/nathole.ClassifyNATFeature 1 inv=verifLoopClassify args=portMin,portMax
-func verifLoopClassify(portMin, portMax int) bool { return portMin <= portMax }
+//verif:loop ~/pkg/nathole.ClassifyNATFeature 1 inv=verifLoopClassify args=portMin,portMax,addresses,rangeindex
+func verifLoopClassify(portMin, portMax int, addresses []string, idx int, k int) bool {
+	return portMin <= portMax && (k < 0 || k > idx || k >= len(addresses) || verifPortInRange(addresses[k]))
+}
+
+// verifPortInRange: the address splits into host and port and the port is a
+// number in 1..65535.
+func verifPortInRange(addr string) bool {
+	_, port, err := net.SplitHostPort(addr)
+	if err != nil {
+		return false
+	}
+	n, err := strconv.Atoi(port)
+	return err == nil && n >= 1 && n <= 65535
+}
 
 // ------------------------------------------------------------ mode tables
 
@@ -345,3 +365,28 @@ func verif_getBehaviorScoresByMode(mode int, defaultScore int, k int) {
 // obligation chains up to four appends of quantified slices and the solvers
 // give up on it within any budget that is stable from run to run; the
 // invariant is assumed at the first lock instead - see the C20 remainder.)
+
+// waitDetectMessage ("authenticated": the peer address a hole-punching role
+// reports is the source of a datagram that decoded under the session key AND
+// carries this session's id - a reply included, so a late or replayed answer of
+// another session of the same proxy is not taken for the peer): on success the
+// last datagram read was decoded without error with the given key, its sid is
+// the expected one, and the address returned is that datagram's source.
+//
+//verif:contract ~/pkg/nathole.waitDetectMessage
+//verif:props C20
+//verif:kinds post,pre
+func verif_waitDetectMessage(ctx context.Context, conn *net.UDPConn, sid string, key []byte, timeout time.Duration, role string) {
+	verif.ResetEvents()
+	raddr, err := waitDetectMessage(ctx, conn, sid, key, timeout, role)
+	if err == nil {
+		const evDec, evRead = "nathole.DecodeMessageInto", "UDPConn).ReadFromUDP"
+		nDec := verif.CallCount(evDec)
+		verif.Ensures(nDec >= 1 && verif.NthRet[error](evDec, nDec-1, 0) == nil, "reported_peer_sent_a_datagram_that_decodes_under_the_key")
+		m := verif.NthArg[any](evDec, nDec-1, 2).(*msg.NatHoleSid)
+		verif.Ensures(m.Sid == sid, "reported_peer_sent_this_sessions_id")
+		verif.Ensures(raddr == verif.NthRet[*net.UDPAddr](evRead, verif.CallCount(evRead)-1, 1), "reported_peer_is_the_source_of_that_datagram")
+	} else {
+		verif.Ensures(raddr == nil, "no_peer_on_error")
+	}
+}
